@@ -191,7 +191,7 @@ func driveRandomLegal(c *driverCtx, prop string) {
 	feat := featuresFromKnown("C01")
 	feat.Time = false // a random string is not a timestamp
 	feat.MaxDepth = 4
-	n := c.pick(150, 4000)
+	n := c.pick(150, 40000)
 	done := 0
 	for i := 0; done < n && i < 4*n; i++ {
 		t, tags := genType(c.rng, feat)
@@ -293,7 +293,7 @@ func driveVectors(c *driverCtx, prop string) error {
 				{name: "last", keep: func(_ string, i, n int) bool { return i == n-1 }},
 				{name: "first", keep: func(_ string, i, _ int) bool { return i == 0 }},
 			}
-			for k := 0; k < c.pick(2, 8); k++ {
+			for k := 0; k < c.pick(2, 30); k++ {
 				mask := c.rng.Uint64()
 				projs = append(projs, projection{name: fmt.Sprintf("random%d", k), perm: k%2 == 0,
 					keep: func(p string, i, _ int) bool { return (mask>>(uint(len(p)*3+i)%63))&1 == 1 }})
